@@ -284,3 +284,72 @@ Fixpoint all2 {A B} (f : A -> B -> bool) (a : list A) (b : list B) : bool :=
   match a, b with [], [] => true | x :: a', y :: b' => f x y && all2 f a' b' | _, _ => false end.
 Definition enum_case_ok (c : enum_case) : bool :=
   let '(ms, obs) := c in all2 val_matches (enum_values ms) obs.
+
+(* ---- name resolution inside an enum body ----
+   Model: findSymbol (js_parser.go) -- the names declared in this block's scope
+   (its own members), then the exported members of the scope's TypeScript
+   namespace object when "tsNamespace.IsEnumScope == member.IsEnumValue" (inside an
+   enum: only enum values, i.e. members of sibling blocks of the merged enum; the
+   exports of a merged namespace are not visible), then the enclosing scopes.
+   Specification: TypeScript's resolveName at an EnumDeclaration looks in the
+   enum symbol's exports restricted to enum members, then continues lexically. *)
+Inductive res_kind : Type := RMember | ROuter.
+Definition res_kind_eqb (a b : res_kind) : bool := match a, b with RMember, RMember | ROuter, ROuter => true | _, _ => false end.
+
+Fixpoint lookup_flag (n : Z) (e : list (Z * bool)) : option bool :=
+  match e with [] => None | (k, v) :: r => if k =? n then Some v else lookup_flag n r end.
+
+(* block: the members of the block being visited; exported: the merged object's
+   exported members with their IsEnumValue flag (earlier entries win) *)
+Definition resolve_name (block : list Z) (exported : list (Z * bool)) (n : Z) : res_kind :=
+  if existsb (Z.eqb n) block then RMember
+  else match lookup_flag n exported with Some true => RMember | _ => ROuter end.
+
+Definition spec_resolve (enum_members : list Z) (n : Z) : res_kind :=
+  if existsb (Z.eqb n) enum_members then RMember else ROuter.
+
+Lemma existsb_filter_flag n : forall exported, NoDup (map fst exported) ->
+  existsb (Z.eqb n) (map fst (filter snd exported)) = match lookup_flag n exported with Some true => true | _ => false end.
+Proof.
+  induction exported as [|[k b] r IH]; intros Hnd; [reflexivity|].
+  cbn [map fst] in Hnd. inversion Hnd as [|? ? Hk Hr]; subst. cbn [filter snd lookup_flag].
+  destruct (k =? n) eqn:E.
+  - apply Z.eqb_eq in E. subst k. destruct b; cbn [map fst existsb].
+    + rewrite Z.eqb_refl. reflexivity.
+    + rewrite (IH Hr). destruct (lookup_flag n r) as [[|]|] eqn:El; auto.
+      exfalso. apply Hk. clear -El. induction r as [|[k' b'] r' IH']; [discriminate|]. cbn in *.
+      destruct (k' =? n) eqn:E'; [left; apply Z.eqb_eq; exact E'|right; apply IH'; exact El].
+  - destruct b; cbn [map fst existsb]; [rewrite Z.eqb_sym, E; cbn|]; apply IH; exact Hr.
+Qed.
+
+(* every member of the visited block is registered as an enum value of the merged object *)
+Lemma resolve_is_spec block exported n :
+  NoDup (map fst exported) -> (forall m, In m block -> lookup_flag m exported = Some true) ->
+  resolve_name block exported n = spec_resolve (map fst (filter snd exported)) n.
+Proof.
+  intros Hnd Hb. unfold resolve_name, spec_resolve. rewrite (existsb_filter_flag n exported Hnd).
+  destruct (existsb (Z.eqb n) block) eqn:E; [|destruct (lookup_flag n exported) as [[|]|]; reflexivity].
+  apply existsb_exists in E as [m [Hin Hm]]. apply Z.eqb_eq in Hm. subst m. rewrite (Hb n Hin). reflexivity.
+Qed.
+
+(* run-time value of a name in an initialiser: a member is read from the enum
+   object, anything else lexically; with the specification's lookup order
+   (members first, then the outer environment) this is the same value *)
+Definition rt_name (block : list Z) (exported : list (Z * bool)) (obj outer : env) (n : Z) : option val :=
+  match resolve_name block exported n with RMember => lookup n obj | ROuter => lookup n outer end.
+Definition spec_name (enum_members : list Z) (obj outer : env) (n : Z) : option val :=
+  if existsb (Z.eqb n) enum_members then lookup n obj else lookup n outer.
+
+Lemma rt_name_is_spec block exported obj outer n :
+  NoDup (map fst exported) -> (forall m, In m block -> lookup_flag m exported = Some true) ->
+  rt_name block exported obj outer n = spec_name (map fst (filter snd exported)) obj outer n.
+Proof.
+  intros Hnd Hb. unfold rt_name, spec_name. rewrite (resolve_is_spec block exported n Hnd Hb). unfold spec_resolve.
+  destruct (existsb (Z.eqb n) (map fst (filter snd exported))); reflexivity.
+Qed.
+
+(* correspondence: (block members, exported (name, IsEnumValue), name, observed: 1 = property of the enum object / inlined member, 0 = lexical reference) *)
+Definition resolve_case := (list Z * list (Z * bool) * Z * Z)%type.
+Definition resolve_case_ok (c : resolve_case) : bool :=
+  let '(block, exported, n, obs) := c in
+  res_kind_eqb (resolve_name block exported n) (if obs =? 1 then RMember else ROuter).
